@@ -35,6 +35,24 @@ CHECKS = {
         note="Theorems are about Model/Dispatcher.v at critical-section granularity under sequential consistency; notify wakes ANY waiter (over-approximates CPython's FIFO); timeouts are environment choices; convergence is stated as absence of bad quiescent states, not liveness under fairness. The tie is sampled (random + PCT schedules, exhaustive up to 3 pre-emptions on small scenarios). CPython-internal races, the real threading primitives and pre-emption inside C code are not covered.",
         technique="Coq inductive invariant over an executable interleaving model, for all schedules + deterministic-scheduler conformance of the real class against the extracted model, trace monitor, ast lock-discipline audit",
     ),
+    "C15": dict(
+        text="Model/Proxy.v transliterates proxy_headers.py (translate_proxy_headers, parse_proxy_headers with every try/except, undquote via the regex terms regenerated from the source, strip_brackets, clear_untrusted_headers) and the middleware install condition of server.py. Coq proves, for ALL configurations, environs and header values: when the peer is not the trusted proxy (and trust is not '*'), two requests that differ only in the six proxy headers are both handed to the application and agree on every other key - in particular the seven metadata keys are untouched - and the result equals that of the request with the six headers deleted; with clearing on none of the six reaches the application; the wrapper is installed exactly when trusted_proxy is set or clearing is on. Tie: differential execution of the extracted model against the real middleware and against the application as wrapped by create_server, multi-request histories through one middleware instance, and an end-to-end two-run search through the real parser and task environ.",
+        design_ref="DESIGN.md section 7 C15",
+        note="Trusted: Coq kernel, extraction + driver, the sampled correspondence. environ values are modelled as str; the construction of the environ from header lines (rename/drop of names, underscore aliases) is the parser/task's (C07) and is exercised here end to end only by sampling. The quoted-string tie relies on the C10 regex translator.",
+        technique="Coq two-run non-interference theorem over an executable model of the proxy middleware + extracted-model differential correspondence and two-run search on the real middleware",
+    ),
+    "C16": dict(
+        text="Over the same model as C15, Coq proves for ALL header values, list lengths n >= 1 and counts k >= 1: totality (for every environ with REMOTE_ADDR and wsgi.url_scheme the trusted path returns Ok or Malformed/400, never an exception); the hop indexing law (client, host and proto come from element n - min k n, the k-th from the right, the leftmost if fewer; for Forwarded the code's reversed 'x or previous' fold equals 'first non-empty field of the trusted suffix'); pruning (the forwarded header handed on is the join of the last k raw elements; hops further left never influence any output key - a two-run theorem); per-kind non-interference for kinds not in trusted_proxy_headers; the 400 categories (bad quoting, pair without '=', padded token/value, several values where one is required, unsupported scheme, empty host, empty client address) and undquote = the RFC quoted-string reading via a reflective regex equivalence on the regenerated terms. Tie: K-proxy differential execution of the extracted model against the real middleware (whole environ / 400 header / exception class) and the executable spec predicates searched on the real middleware, including two-run searches.",
+        design_ref="DESIGN.md section 7 C16",
+        note="Hop/prune theorems are for trusted_proxy_count >= 1, which Adjustments now enforces (fix c9ae1a8); other counts are modelled and covered by K-proxy only. A converse to the 400 categories (a 400 arises only from the listed categories) is not proved. The HTTP_HOST port-formatting rules are covered as a frame property and by K-proxy. Two defects found by this package were repaired in /repo (12a41a9 IndexError on an empty client address, 11c18eb empty forwarded host accepted).",
+        technique="Coq: totality, indexing law for all n,k, two-run pruning/kind non-interference, 400 categories, reflective regex equivalence for quoted-string + extracted-model differential correspondence and spec search on the real middleware",
+    ),
+    "C18": dict(
+        text="Model/Server.v is an executable model of the socket map (N listeners each with its trigger slot, client channels, a fake kernel with backlogs / receive queues / send-buffer room, an integer clock) in which one wasyncore.poll turn is one event and whose boolean decisions (HTTPChannel.readable/writable, handle_write's flush selection and close tail, the maintenance test, BaseWSGIServer.readable with its overflow-flag update) are regenerated from the source on every run (translate/gen_preds.py) and consumed through interface lemmas. Coq proves for ALL event histories and parameter values: map size <= max(2L, connection_limit + L - 1), which is the property's bound limit + (L-1) whenever limit >= L+1 (and the bound is reached); nothing is accepted in a turn that starts at or above the limit and accepting resumes in the first turn below it; a channel with a request queued or executing is never marked and survives every event except its own disconnect, however far the clock advances; maintenance recurs within cleanup_interval of a poll; an idle expired connection is closed by the first poll turn at or after the due maintenance PROVIDED its socket is writable when polled (deadline t + cleanup_interval + P under a stated loop-period hypothesis). Tie: differential execution of the real create_server / TcpWSGIServer / MultiSocketServer / HTTPChannel / wasyncore.loop / trigger over a fake kernel and clock against the extracted model after every event, predicate cross-check on all field combinations, and property monitors on the real trace.",
+        design_ref="DESIGN.md section 7 C18",
+        note="The reaping clause is proved as _partial under the explicit hypothesis that the socket is writable when polled (unconditionally when its send buffer has room); the unconditional statement is refuted in the model (C18_reap_refuted, C18_stalled_never_closed) and on the real classes: open known finding kf_c18_stalled_peer (F21). Time is an integer clock; the loop period P and socket readiness are environment hypotheses; worker threads are represented by an atomic 'application finishes' event (the interleaving side is C04/C05/C11). connection_limit <= number of listeners is a degenerate configuration in which nothing is ever accepted (observation).",
+        technique="inductive Coq proofs over event histories about a model whose decisions are regenerated from the source + extracted-model differential correspondence against the real server/channel/poll loop over a fake kernel and clock + trace monitors",
+    ),
 }
 
 NOT_YET = {}
